@@ -73,6 +73,13 @@ type Env struct {
 	Panics []any
 	// DelayFinish: see slowManager
 	DelayFinish bool
+	// DelayStart: the worker that popped a task is descheduled right before it
+	// asks the manager for the task's data (StartTask), until every other
+	// goroutine has run as far as it can
+	DelayStart bool
+	// OnStartTask, when set, runs on the worker's goroutine after it popped a
+	// task and before it asks the manager for the task's data
+	OnStartTask func(id graphsync.RequestID, p peer.ID)
 
 	// observations
 	ReqHookCalls map[key]int
@@ -124,6 +131,17 @@ func NewEnv(dag *kit.DAG, has []bool, workers int, maxLinksGlobal uint64, total,
 type slowManager struct {
 	*responsemanager.ResponseManager
 	e *Env
+}
+
+func (m *slowManager) StartTask(task *peertask.Task, p peer.ID, responseTaskChan chan<- queryexecutor.ResponseTask) {
+	if m.e.OnStartTask != nil {
+		m.e.OnStartTask(task.Topic.(graphsync.RequestID), p)
+	}
+	if m.e.DelayStart {
+		verifrt.Cover("slow-start")
+		verifrt.Quiesce()
+	}
+	m.ResponseManager.StartTask(task, p, responseTaskChan)
 }
 
 func (m *slowManager) FinishTask(task *peertask.Task, p peer.ID, err error) {
